@@ -94,6 +94,12 @@ def run(tier, seed, replay=None):
         for a in bs[:6]:
             for p in range(2, 33):
                 cases.append(("cancel %s/%d" % (ip_s(a), p), [], "cancel", a, p))
+        # cancelled before the call while the consumer side never makes the generator wait (a channel with room for the whole
+        # network / a consumer that takes every address at once): cancelling STOPS the enumeration - with ctx.Done() ready at every
+        # send, the chance that k addresses are handed over is 2^-k, so more than 64 is a generator that does not look at its context
+        for i, a in enumerate(bs[:4]):
+            for p, buf in ((12, 1 << 20), (16, 0), (20 - i, 1 << 12), (14 + i, 0)):
+                cases.append(("cancelroom %s/%d %d" % (ip_s(a), p, buf), [], "cancelroom", a, p))
         # hand-built IPNets whose IP field keeps host bits (ipGenerator must mask itself), in the
         # 4-byte and in Go's 16-byte representation of an IPv4 address
         for a in bs:
@@ -244,6 +250,11 @@ def run(tier, seed, replay=None):
             expect = "true" + "".join(" " + v for v in vals)
         elif kind in ("cancel", "disccancel", "drvcancel"):
             expect = "true"
+        elif kind == "cancelroom":
+            gw = g.split()
+            if len(gw) == 2 and gw[0] == "true" and gw[1].isdigit() and int(gw[1]) <= 64:
+                continue
+            expect = "true <at most 64>"
         if len(samples) < 6 and kind in ("gen", "head") and p in (29, 30, 13, 31):
             samples.append(dict(request=req, go=g[:200], model=expect[:200]))
         if g.strip() == expect:
@@ -257,6 +268,11 @@ def run(tier, seed, replay=None):
         elif kind == "disccancel":
             res.violation("cancel-blocks:autodiscover", "autoDiscover over %s (async limit %s) had not returned 5 s after its context was cancelled (%s ms into the run): %s"
                           % (req.split()[3], req.split()[1], req.split()[2], g[:200]), replay_d)
+        elif kind == "cancelroom":
+            res.violation("cancel-does-not-stop-enumeration", "ipGenerator for %s/%d called with a cancelled context and a consumer side that never makes it wait (%s) "
+                          "handed over %s addresses (returned: %s): cancelling the run does not stop the enumeration"
+                          % (ip_s(a), p, "channel with room for %s" % req.split()[2] if req.split()[2] != "0" else "a consumer taking every address at once",
+                             (g.split() + ["?", "?"])[1], (g.split() + ["?"])[0]), replay_d)
         elif kind == "cancel":
             res.violation("cancel-blocks:/%d" % p if p >= 31 else "cancel-blocks:loop",
                           "ipGenerator for %s/%d did not return within 3s after cancellation with no consumer" % (ip_s(a), p), replay_d)
